@@ -1,9 +1,9 @@
 # run plan + floors for C06 (loaded by checkcfg.py; helpers e1/e2 are in scope)
 #
 # Floors are for the merged totals of one tier and are sized at roughly 1/8 of what
-# the 4 quick shards observe on the unchanged tree (where ~45 % of the histories
-# stop early at an already diagnosed finding); with the findings fixed every count
-# goes up, never down.
+# the 4 quick shards observed on /repo 79978f6 (where ~45 % of the histories stopped
+# early at the restale phantom, since fixed by e27e05d); with findings fixed every
+# count goes up, never down.
 CFG = dict(
     level="exploration",
     rule="case = one Table call (step) of one protocol-conformant history, judged against "
